@@ -60,6 +60,7 @@ def cap():
 
 
 T_DEFAULT = 2048
+TIES = ("events", "timers", "io")  # order of scripted events vs timers at equal instants (vloop.py)
 
 ENDPOINT_FORMS = {
     # name: (data text, base url needed or None)
@@ -72,6 +73,21 @@ ENDPOINT_FORMS = {
     "dataonly-mcp": ("http://h.test/mcp?session_id=s6", None),
 }
 DATAONLY = {"dataonly-messages", "dataonly-mcp"}
+
+
+def burst_msg(i):
+    return {"k": "msg", "m": {"jsonrpc": "2.0", "method": "notifications/progress", "params": {"seq": i}}, "typed": bool(i % 3)}
+
+
+def items_of(case):
+    """the event-stream script with every {"k":"burst","n":N,"start":S} expanded to N notifications"""
+    out = []
+    for it in case.get("items", []):
+        if it["k"] == "burst":
+            out += [burst_msg(it.get("start", 0) + i) for i in range(it["n"])]
+        else:
+            out.append(it)
+    return out
 
 
 def render_item(it) -> str:
@@ -93,12 +109,12 @@ def render_item(it) -> str:
 
 
 def stream_bytes(case) -> bytes:
-    return "".join(render_item(it) for it in case.get("items", [])).encode("utf-8")
+    return "".join(render_item(it) for it in items_of(case)).encode("utf-8")
 
 
 def item_bounds(case):
     out, pos = [], 0
-    for it in case.get("items", []):
+    for it in items_of(case):
         pos += len(render_item(it).encode("utf-8"))
         out.append(pos)
     return out
@@ -109,7 +125,10 @@ def chunk_plan(case):
     from .sse_h import cut_bytes
     b = stream_bytes(case)
     t0, gap = case.get("t0", 1), case.get("gap", 1)
-    pieces = cut_bytes(b, case.get("cuts", [])) if b else []
+    cuts = case.get("cuts", [])
+    if cuts == "items":  # one chunk per event
+        cuts = item_bounds(case)
+    pieces = cut_bytes(b, cuts) if b else []
     plan = [(t0 + i * gap, p) for i, p in enumerate(pieces)]
     last = plan[-1][0] if plan else t0
     close = None if case.get("close") is None else last + case["close"]
@@ -133,7 +152,7 @@ def harness_case(case):
         "base": case.get("base", "http://h.test"), "T": case.get("T", T_DEFAULT), "tie": case.get("tie", "events"),
         "conn": case.get("conn", {"k": "ok", "at": 0}),
         "chunks": [[t, p.hex()] for t, p in plan], "close": close, "bounds": item_bounds(case),
-        "reqs": reqs, "exit": case.get("exit", {"k": "normal", "at": 50}),
+        "reqs": reqs, "exit": case.get("exit", {"k": "normal", "at": 50}), "pause": case.get("pause", 0),
     }
 
 
@@ -158,7 +177,7 @@ def model_line(case):
     if close is not None:
         close = max(close, c_at)
     table = []
-    for it in case.get("items", []):
+    for it in items_of(case):
         if it["k"] == "msg":
             data = json.dumps(it["m"], separators=(",", ":"), ensure_ascii=False)
             table.append({"d": [ord(c) for c in data], "key": py_key(it["m"].get("id")) if isinstance(it["m"], dict) else None,
@@ -183,7 +202,7 @@ def model_line(case):
 # ------------------------------------------------------------------ reference reading (oracle)
 def expected_srv(case):
     """Server messages the script puts on the event stream as complete, well-formed events."""
-    return [it["m"] for it in case.get("items", []) if it["k"] == "msg" and it.get("valid", True)]
+    return [it["m"] for it in items_of(case) if it["k"] == "msg" and it.get("valid", True)]
 
 
 def announce_tick(case):
@@ -194,7 +213,7 @@ def announce_tick(case):
         return None
     pos = 0
     end = None
-    for it in case.get("items", []):
+    for it in items_of(case):
         b = render_item(it).encode("utf-8")
         if it["k"] == "endpoint":
             # the announcement is complete with the line feed that ends its data line
@@ -272,7 +291,7 @@ def exit_after(case):
     plan, close = chunk_plan(case)
     if plan:
         at = max(at, plan[-1][0] + 10)
-    return {"k": "normal", "at": at + 20}
+    return {"k": "normal", "at": at + 20 + case.get("pause", 0)}
 
 
 def finish(case):
@@ -283,7 +302,7 @@ def finish(case):
 # ------------------------------------------------------------------ suites' case lists
 def establish_cases(budget, rng):
     out = []
-    ties = ("events", "timers")
+    ties = TIES
     # (a) announced in each accepted form
     for form in ENDPOINT_FORMS:
         for crlf in (False, True):
@@ -361,7 +380,7 @@ def seeded_establish(rng):
     gap = rng.choice([0, 1, 7])
     if t0 + gap * len(cuts) == T or (t0 <= T <= t0 + gap * len(cuts) and gap and (T - t0) % gap == 0):
         t0 += 1
-    c = {"base": base, "T": T, "tie": rng.choice(["events", "timers"]), "conn": conn, "items": items, "cuts": cuts,
+    c = {"base": base, "T": T, "tie": rng.choice(list(TIES)), "conn": conn, "items": items, "cuts": cuts,
          "t0": t0, "gap": gap, "close": rng.choice([None, None, 0, 5, 60]), "reqs": [probe_req()]}
     if conn.get("at") == T:
         conn["at"] += 1
@@ -397,7 +416,7 @@ def request_cases(budget, rng):
     bg = [EP, msg_notif(1), JUNK[0], msg_srvreq(1), JUNK[3], msg_foreign_resp(2), msg_unicode(3), msg_invalid(4), msg_srvreq(2)]
     # single requests: every mode x tie x placement of the background traffic
     for spec in REQ_MODES:
-        for tie in ("events", "timers"):
+        for tie in TIES:
             for gap in (0, 2, 5):
                 c = {"T": T, "tie": tie, "items": list(bg), "cuts": [46, 60, 110, 150, 205, 300], "t0": 1, "gap": gap,
                      "reqs": [mk_req(1, 3, spec)]}
@@ -406,7 +425,7 @@ def request_cases(budget, rng):
     for d in (2, 5, 9):
         for ed in (1, 2, 4, 5, 6, 9, 12):
             for cuts, gap in (([], 0), ([20], 0), ([20], 3), ([7, 40], 1), ([EV_LEN - 1], 2), ([EV_LEN - 2, EV_LEN - 1], 0)):
-                for tie in ("events", "timers"):
+                for tie in TIES:
                     last = ed + len(cuts) * gap
                     if ed <= d <= last and ed != last:
                         continue  # pieces straddling the POST completion: order decided by the last piece
@@ -419,7 +438,7 @@ def request_cases(budget, rng):
                                 continue
                             out.append(finish(c))
     # straddling pieces (first piece before the 202, last piece after it)
-    for tie in ("events", "timers"):
+    for tie in TIES:
         for cuts, gap in (([20], 4), ([7, 40], 3)):
             c = {"T": T, "tie": tie, "items": [EP], "t0": 1, "gap": 0,
                  "reqs": [mk_req(1, 3, {"mode": "ackev", "d": 5, "ed": 3, "cuts": cuts, "gap": gap})]}
@@ -429,7 +448,7 @@ def request_cases(budget, rng):
     for a in REQ_MODES:
         for b in REQ_MODES:
             k += 1
-            tie = ("events", "timers")[k % 2]
+            tie = TIES[k % 3]
             c = {"T": T, "tie": tie, "items": [EP, msg_notif(k), msg_srvreq(k)], "cuts": [50], "t0": 1, "gap": 6,
                  "reqs": [mk_req(1, 3, a), mk_req(2, 4 + (k % 3) * 4, b)]}
             out.append(finish(c))
@@ -450,7 +469,7 @@ def request_cases(budget, rng):
                                     msg_unicode(rng.randint(0, 9)), msg_invalid(rng.randint(0, 9))]) for _ in range(rng.randint(0, 6))]
         nbytes = len("".join(render_item(it) for it in items).encode("utf-8"))
         cuts = sorted(set(rng.randint(1, nbytes - 1) for _ in range(rng.randint(0, 5))))
-        c = {"T": rng.choice([256, 1024]), "tie": rng.choice(["events", "timers"]), "items": items, "cuts": cuts, "t0": 1,
+        c = {"T": rng.choice([256, 1024]), "tie": rng.choice(list(TIES)), "items": items, "cuts": cuts, "t0": 1,
              "gap": rng.choice([0, 1, 4, 9]), "reqs": reqs}
         out.append(finish(c))
     return out
@@ -481,7 +500,7 @@ def chunk_cases(budget, rng):
             for _ in range(m):
                 cutsets.append(sorted(set(rng.randint(1, n - 1) for _ in range(rng.randint(2, 4)))))
         for ci, cuts in enumerate(cutsets):
-            c = dict(base_case, cuts=cuts, gap=(0, 1, 3)[ci % 3], tie=("events", "timers")[ci % 2])
+            c = dict(base_case, cuts=cuts, gap=(0, 1, 3)[ci % 3], tie=TIES[(ci // 3) % 3])
             out.append(finish(c))
     return out
 
@@ -501,7 +520,7 @@ def exit_cases(budget, rng):
             pts = pts[:13]
         for ek in EXIT_KINDS:
             for at in pts:
-                for tie in ("events", "timers"):
+                for tie in TIES:
                     if budget == "quick" and tie == "timers" and at % 2:
                         continue
                     c = {"T": T, "tie": tie, "items": [EP, msg_notif(1), msg_srvreq(2)], "cuts": [60], "t0": 1, "gap": 10 + at,
@@ -513,4 +532,35 @@ def exit_cases(budget, rng):
     # NOT generated (outside the property's quantifier: the server ends the event stream after
     # announcing the endpoint): {"items":[EP],"close":3,"reqs":[silence],"exit":{"k":"normal","at":40}}
     # makes `_cleanup` wait for ever for `_outgoing_task` on the pinned code.
+    return out
+
+
+
+def backpressure_cases(budget, rng):
+    """The consumer does not read for a while: bursts around the size of the transport's read
+    buffer (100) queue up, in one chunk and in many, then everything is drained; also a request
+    whose answer travels behind the burst (on the event stream, and in the POST reply)."""
+    out = []
+    T = 1024
+    k = 0
+    for n in (0, 1, 99, 100, 101, 150, 400):
+        for cuts, gap in (([], 0), ("items", 0), ("items", 1), ([97, 1234, 5000], 2)):
+            for req in (None, {"mode": "ackev", "d": 2, "ed": 4}, {"mode": "200", "d": 3}, {"mode": "silence", "d": 2}):
+                k += 1
+                if n == 400 and (k % 2 or req is not None and req["mode"] == "silence"):
+                    continue
+                if budget == "quick" and n in (0, 1, 99) and (cuts != "items" or gap):
+                    continue
+                tie = TIES[k % 3]
+                c = {"T": T, "tie": tie, "items": [EP, {"k": "burst", "n": n, "start": 0}, msg_srvreq(7)], "cuts": cuts, "t0": 1,
+                     "gap": gap, "pause": 60 + (k % 4) * 25, "reqs": [mk_req(1, 3, req)] if req else []}
+                if req and req["mode"] == "silence":
+                    c["T"] = 128
+                    c["pause"] = 30 + 128  # the synthesised timeout error also queues behind the burst
+                out.append(finish(c))
+    # two bursts with a pause in between, and reading that starts in the middle of the burst
+    for tie in TIES:
+        out.append(finish({"T": T, "tie": tie, "items": [EP, {"k": "burst", "n": 120, "start": 0}, msg_srvreq(1), {"k": "burst", "n": 120, "start": 120}],
+                           "cuts": "items", "t0": 1, "gap": 1, "pause": 130, "reqs": [mk_req(1, 3, {"mode": "ackev", "d": 2, "ed": 4})]}))
+        out.append(finish({"T": T, "tie": tie, "items": [EP, {"k": "burst", "n": 250, "start": 0}], "cuts": [], "t0": 1, "gap": 0, "pause": 0, "reqs": []}))
     return out
